@@ -677,6 +677,41 @@ pub fn run(ctx: &Ctx) {
     });
     let cases = ctx.tier.pick(10_000, 100_000);
     ctx.random("random-rule-sets", cases, 400, random_case);
+    // sub-patterns nested 1-12 levels deep (lists and vectors alternating), with a fall-back rule behind them
+    ctx.indexed("deep-patterns", 24, 1, |i| {
+        let depth = 1 + (i / 2) as usize;
+        let vectors = i % 2 == 1;
+        let wrap_pat = |mut p: Pat| {
+            for k in 0..depth {
+                p = if vectors && k % 2 == 1 { Pat::Vector(vec![p], None) } else { Pat::List(vec![p], None) };
+            }
+            p
+        };
+        let wrap_datum = |mut d: Datum, levels: usize| {
+            for k in 0..levels {
+                d = if vectors && k % 2 == 1 { Datum::Vector(vec![d]) } else { Datum::List(vec![d], None) };
+            }
+            d
+        };
+        let inner = Pat::List(vec![Pat::Var("p0".into())], Some(Box::new(Pat::Var("p1".into()))));
+        let deep = Pat::List(vec![wrap_pat(inner)], None);
+        let fallback = Pat::List(vec![Pat::Var("p2".into())], None);
+        let rs = RuleSet {
+            literals: vec![],
+            rules: vec![Rule { pattern: deep.clone(), template: exposing_template(0, &deep) }, Rule { pattern: fallback.clone(), template: exposing_template(1, &fallback) }],
+        };
+        let core = Datum::List(vec![Datum::Int(1), Datum::Int(2), Datum::Sym("z".into())], None);
+        let uses = vec![
+            Datum::List(vec![wrap_datum(core.clone(), depth)], None),
+            Datum::List(vec![wrap_datum(core.clone(), depth + 1)], None),
+            Datum::List(vec![wrap_datum(core.clone(), depth.saturating_sub(1))], None),
+            Datum::List(vec![wrap_datum(Datum::List(vec![Datum::Int(7), Datum::Int(8)], None), depth)], None),
+        ];
+        let mut rep = judge_rule_set(&rs, &uses);
+        rep.labels.push(format!("pattern-depth:{}", depth));
+        rep.nontrivial = true;
+        Some(rep)
+    });
     let histories = ctx.tier.pick(96, 600);
     ctx.random("rejection-history", histories, 8, rejection_history_case);
 }
